@@ -42,7 +42,8 @@ func (b Branch) Target(ctx context.Context, height int) (*big.Int, error) {
 		return nil, errors.Wrap(err, "first header stats")
 	}
 
-	timeSpan := lastTime - firstTime
+	// The time span is signed. The first header can have a later time than the last header.
+	timeSpan := int64(lastTime) - int64(firstTime)
 
 	// Apply time span limits
 	if timeSpan < 72*600 {
@@ -59,7 +60,7 @@ func (b Branch) Target(ctx context.Context, height int) (*big.Int, error) {
 	// Projected Work (PW) = (W * 600) / TS.
 	projected := &big.Int{}
 	projected.Mul(work, big.NewInt(600))
-	projected.Div(projected, big.NewInt(int64(timeSpan)))
+	projected.Div(projected, big.NewInt(timeSpan))
 
 	target := bitcoin.ConvertToWork(projected)
 
